@@ -1339,6 +1339,9 @@ func main() {
 
 	fmt.Println("From Coq Require Import String List Bool. Import ListNotations. Open Scope string_scope.")
 	printEthereumTx(kfiles)
+	afiles := ParseDir(repo + "/app/evmante")
+	printSenderBalanceCheck(kfiles, afiles)
+	printFeeCapFloor(afiles)
 	fmt.Println("(* journal entry types: name, fields, what Dirtied() returns *)")
 	fmt.Println("Definition c03_entry_types : list (string * list string * string) := [")
 	for i, j := range jts {
